@@ -26,13 +26,18 @@
 (*   TreeOf(page)        the tree the property demands                        *)
 (*   MachineTree(a, Dev) Encode + Lex + handlers run on atoms a               *)
 (*                                                                            *)
-(* Dev = {} is the ideal parser; "CaptionSwallowsDataCells" \in Dev is the    *)
-(* behaviour of table_cell_fn found in the repository.                        *)
+(* Dev = {} is the ideal parser.  Behaviours found in the repository:          *)
+(*   "CaptionSwallowsDataCells"  table_cell_fn: a | line after a caption stays *)
+(*                               text of the caption                           *)
+(*   "TagAttrNameCharset"        start tags with _ or . in an attribute name   *)
+(*                               are not tags                                  *)
+(*   "RowCellsReadAsAttributes"  table_row_check_attrs re-reads the cells a    *)
+(*                               row already has as its attribute text         *)
 EXTENDS Unparse
 
 CONSTANT Tags   \* wikihtml.ALLOWED_HTML_TAGS as tag :> [parents, content, closenext : Seq(STRING), noend : BOOLEAN]
 
-AllParserDevs == {"CaptionSwallowsDataCells", "TagAttrNameCharset"}
+AllParserDevs == {"CaptionSwallowsDataCells", "TagAttrNameCharset", "RowCellsReadAsAttributes"}
 
 (* ------------------------------------------------------------------------ *)
 (* vocabulary (TLC cannot look inside a string: classes are explicit sets)   *)
@@ -302,6 +307,8 @@ InClass(a, cls, dev) ==
     [] cls = "path" -> a \notin {"[", "]", "{", "}", "<", ">", "|", "SP", "NL"}
     [] cls = "tagattr" -> IsTagAttrName(a, dev)
     [] cls = "unq" -> a \notin {"SP", "NL", "\"", "'", "`", "=", "<", ">"}
+    [] cls = "attrname" -> a \notin {"\"", "'", ">", "/", "=", "SP", "NL"}        \* [^"'>/=\0-\037\s]
+    [] cls = "attrunq" -> a \notin {"\"", "'", "<", ">", "`", "SP", "NL"}        \* [^"'<>`\s]
 \* length of the maximal run of atoms of a class that starts at q
 RECURSIVE RunLenC(_, _, _, _)
 RunLenC(seg, q, cls, dev) == IF q <= Len(seg) /\ InClass(seg[q], cls, dev) THEN 1 + RunLenC(seg, q + 1, cls, dev) ELSE 0
@@ -544,27 +551,30 @@ TextFn(st, a) ==
      ELSE SetTop(st2, AddText(top, a))
 
 (* ---- parse_attrs (parser.py:1872-1889) over the atoms of the attribute text ---- *)
-\* \b(name)(?:\s*=\s*("[^"]*"|'[^']*'|[^"'<>`\s]*))?\s*  with finditer.  A name / an
-\* unquoted value is one atom here (true for every URL-safe name and value); a quoted
-\* value is the single atom between the quotes or empty.
-IsNameAtom(a) == a \notin {"\"", "'", ">", "/", "=", "SP", "NL"} /\ (IsWord(a))
-IsUnqValueAtom(a) == a \notin {"\"", "'", "<", ">", "`", "SP", "NL"}
+\* \b(name)(?:\s*=\s*("[^"]*"|'[^']*'|[^"'<>`\s]*))?\s*  with finditer.  Names and values
+\* are the concatenated spellings of their atoms (one atom for every URL-safe name/value).
+AtomStr(a) == IF a = "SP" THEN " " ELSE IF a = "NL" THEN "\n" ELSE a
+RECURSIVE CatAtoms(_)
+CatAtoms(s) == IF s = <<>> THEN "" ELSE AtomStr(s[1]) \o CatAtoms(Tail(s))
 SkipWs(s, p) == p + RunLen(s, p, "ws")
+PlainQuotedLen(s, q, qc) ==   \* length of qc [^qc]* qc at q, 0 if none
+  IF q <= Len(s) /\ s[q] = qc THEN (LET j == IndexIn(s, q + 1, {qc}) IN IF j > 0 THEN j - q + 1 ELSE 0) ELSE 0
 RECURSIVE ParseAttrsFrom(_, _)
 ParseAttrsFrom(s, p) ==
   IF p > Len(s) THEN <<>>
-  ELSE IF ~IsNameAtom(s[p]) THEN ParseAttrsFrom(s, p + 1)
-  ELSE LET p1 == SkipWs(s, p + 1) IN
-       IF p1 <= Len(s) /\ s[p1] = "="
-       THEN LET p2 == SkipWs(s, p1 + 1) IN
-            IF p2 + 2 <= Len(s) /\ s[p2] \in {"\"", "'"} /\ s[p2 + 2] = s[p2] /\ s[p2 + 1] # s[p2]
-            THEN <<Attr(s[p], s[p2 + 1])>> \o ParseAttrsFrom(s, p2 + 3)
-            ELSE IF p2 + 1 <= Len(s) /\ s[p2] \in {"\"", "'"} /\ s[p2 + 1] = s[p2]
-            THEN <<Attr(s[p], "")>> \o ParseAttrsFrom(s, p2 + 2)
-            ELSE IF p2 <= Len(s) /\ IsUnqValueAtom(s[p2]) /\ s[p2] # "="
-            THEN <<Attr(s[p], s[p2])>> \o ParseAttrsFrom(s, p2 + 1)
-            ELSE <<Attr(s[p], "")>> \o ParseAttrsFrom(s, p2)
-       ELSE <<Attr(s[p], "")>> \o ParseAttrsFrom(s, p + 1)
+  ELSE IF ~(IsWord(s[p]) \/ s[p] = "_") THEN ParseAttrsFrom(s, p + 1)      \* \b
+  ELSE LET nl == RunLen(s, p, "attrname")
+           name == CatAtoms(SubSeq(s, p, p + nl - 1))
+           p1 == SkipWs(s, p + nl)
+       IN IF p1 <= Len(s) /\ s[p1] = "="
+          THEN LET p2 == SkipWs(s, p1 + 1)
+                   dq == PlainQuotedLen(s, p2, "\"")
+                   sq == PlainQuotedLen(s, p2, "'")
+                   ql == IF dq > 0 THEN dq ELSE sq
+                   ul == RunLen(s, p2, "attrunq")
+               IN IF ql > 0 THEN <<Attr(name, CatAtoms(SubSeq(s, p2 + 1, p2 + ql - 2)))>> \o ParseAttrsFrom(s, SkipWs(s, p2 + ql))
+                  ELSE <<Attr(name, CatAtoms(SubSeq(s, p2, p2 + ul - 1)))>> \o ParseAttrsFrom(s, SkipWs(s, p2 + ul))
+          ELSE <<Attr(name, "")>> \o ParseAttrsFrom(s, SkipWs(s, p + nl))
 \* node.attrs[name] = value: a dict, later duplicates overwrite in place
 RECURSIVE PutAttrs(_, _)
 PutAttrs(attrs, new) ==
@@ -576,17 +586,45 @@ PutAttrs(attrs, new) ==
 ParseAttrs(f, s) == [f EXCEPT !.attrs = PutAttrs(f.attrs, ParseAttrsFrom(s, 1))]
 
 (* ---- check_for_attributes / table_check_attrs / table_row_check_attrs ---- *)
-\* a single string child is taken as the attribute text; children that are all blank
-\* strings count as empty; the regexp over re-serialised child nodes
-\* (attr_assignments_re) is not transcribed: written attribute maps never contain nodes
+\* html.escape(quote=True)
+EscapeAtom(a) ==
+  CASE a = "&" -> <<"&", "amp", ";">> [] a = "<" -> <<"&", "lt", ";">> [] a = ">" -> <<"&", "gt", ";">>
+    [] a = "\"" -> <<"&", "quot", ";">> [] a = "'" -> <<"&", "#", "x27", ";">> [] OTHER -> <<a>>
+EscapeHtml(s) == Concat([i \in 1..Len(s) |-> EscapeAtom(s[i])])
+\* candidate: strings as they are, child nodes re-serialised and escaped
+Candidate(kids, emitDevs) ==
+  Concat([i \in 1..Len(kids) |-> IF IsStr(kids[i]) THEN kids[i].s ELSE EscapeHtml(Unparse(kids[i], emitDevs))])
+\* re.match(attr_assignments_re): (\s*name\s*=\s*("..."|'...'|[^"'<>`\s]+))+\s*$   (greedy, no backtracking
+\* into an unquoted value)
+RECURSIVE MatchAssignments(_, _, _)
+MatchAssignments(s, p, n) ==
+  LET p0 == SkipWs(s, p) IN
+  IF p0 > Len(s) THEN n >= 1
+  ELSE LET nl == RunLen(s, p0, "attrname")
+           p1 == SkipWs(s, p0 + nl)
+       IN IF nl = 0 \/ p1 > Len(s) \/ s[p1] # "=" THEN FALSE
+          ELSE LET p2 == SkipWs(s, p1 + 1)
+                   dq == PlainQuotedLen(s, p2, "\"")
+                   sq == PlainQuotedLen(s, p2, "'")
+                   ql == IF dq > 0 THEN dq ELSE sq
+                   ul == RunLen(s, p2, "attrunq")
+               IN IF ql > 0 THEN MatchAssignments(s, p2 + ql, n + 1)
+                  ELSE IF ul > 0 THEN MatchAssignments(s, p2 + ul, n + 1)
+                  ELSE FALSE
+IsCellNode(c) == IsNode(c) /\ c.kind \in {"TABLE_CELL", "TABLE_HEADER_CELL"}
 CheckAttrs(st, kind) ==
   LET f == Top(st) IN
   IF f.kind # kind \/ f.children = <<>> THEN st
+  \* repaired table_row_check_attrs: a row that already has cells has no attribute text left
+  ELSE IF kind = "TABLE_ROW" /\ "RowCellsReadAsAttributes" \notin st.dev /\ (\E i \in 1..Len(f.children) : IsCellNode(f.children[i]))
+  THEN Cov(st, "attrs:row-has-cells")
   ELSE IF Len(f.children) = 1 /\ IsStr(f.children[1])
   THEN Cov(SetTop(st, ParseAttrs([f EXCEPT !.children = <<>>], f.children[1].s)), "attrs:" \o kind)
-  ELSE IF \A i \in 1..Len(f.children) : IsStr(f.children[i]) /\ AllSpace(f.children[i].s)
-  THEN SetTop(st, [f EXCEPT !.children = <<>>])
-  ELSE Cov(st, "attrs:not-attributes")
+  ELSE LET cand == Candidate(f.children, st.dev \cap AllUnparseDevs) IN
+       IF \A i \in 1..Len(cand) : cand[i] \in WS THEN SetTop(st, [f EXCEPT !.children = <<>>])
+       ELSE IF MatchAssignments(cand, 1, 0)
+       THEN Cov(SetTop(st, ParseAttrs([f EXCEPT !.children = <<>>], cand)), "attrs:regex-over-child-nodes")
+       ELSE Cov(st, "attrs:not-attributes")
 TableCheckAttrs(st) == CheckAttrs(st, "TABLE")
 TableRowCheckAttrs(st) == CheckAttrs(st, "TABLE_ROW")
 
